@@ -1073,7 +1073,13 @@ def r3_reader_strides(ctx):
             continue
         good = na[0] == nb[0] and na[1] == Lin(c=8) and nb[1] == Lin(c=9) and na[2] == Lin(c=-1) == nb[2] and na[3] == Lin(c=2) == nb[3]
         if not good:
-            (v.bad if all(x.is_const() for x in na[1:] + nb[1:]) else v.unknown)([show(c) for c in cols])
+            if na[0] != nb[0]:
+                v.unknown([show(c) for c in cols])
+                continue
+            # a component that differs from the expected stride for some card length is a contradiction
+            diffs = [na[1] - 8, nb[1] - 9, na[2] + 1, nb[2] + 1, na[3] - 2, nb[3] - 2]
+            verdicts = [_differs(d_, ()) [0] for d_ in diffs if not (d_.is_const() and d_.c == 0)]
+            (v.bad if any(x is True for x in verdicts) else v.unknown)([show(c) for c in cols])
             continue
         # the vector sliced is the card of the table the result is stored under
         src = na[0]
@@ -1468,24 +1474,71 @@ def r4_sequence_coverage(ctx):
     _thru(ctx, "_wt_with_thru", "seq")
 
 
-def _count_check(ctx, q, e, label):
-    """a `.format` event: number of replacement fields == number of values supplied, under the facts at the call"""
-    nf, na = e.d.get("nfields"), e.d.get("nargs")
-    inst = f"{q}: the {label} template has as many fields as it is given values"
-    if nf is None or na is None:
-        ctx.error(inst, e.node, "field / value count not derived")
-        return
-    d = nf - na
-    if M.proves_zero(d, e.facts):
-        ctx.ok(inst, e.node)
-        return
-    syms = M.free_symbols(d)
-    w = M.find_witness(syms, e.facts, lambda a: M.lin_eval(d, a) not in (None, 0), limit=36) if len(syms) <= 3 else None
-    if w is not None:
-        ctx.fail(inst, e.node, {"fields": show(nf), "values": show(na), "differ for": {show(k): v for k, v in w.items()},
-                                "consequence": "str.format silently drops surplus values (or raises IndexError when there are too few)"})
-    else:
-        ctx.error(inst, e.node, {"fields": show(nf), "values": show(na)})
+def _int_records(E, e, seq, N):
+    """what a write puts on a line, whatever the spelling: ("{:8d}" * k).format(*seq[a:b])  or  "".join(f"{v:8d}" for v in seq[a:b])
+    -> dict(nints, a, b, head (None | True | False), layout (True | False | None), count (fields, values) or None)   or None if not a line of
+    integers of `seq`"""
+    if e.kind == "format" and e.d.get("items") is not None:
+        star = [x for x in e.d["args"] if isinstance(x, tuple) and x[:1] == ("star",)]
+        if not star:
+            return None
+        x = star[0][1]
+        if x == seq:
+            a, b = Lin(), N
+        elif isinstance(x, tuple) and x[:1] == ("slice",) and M.origin(x[1]) == seq and x[4] == Lin(c=1):
+            a = lin(x[2])
+            b = N if x[3] == ("k", None) else M.mk_min([lin(x[3]), N], e.facts)
+        else:
+            return {"unknown": show(x)}
+        items = e.d["items"]
+        heads = [it for it in items if it[0] == "field" and it[1] is not None and it[1].type == "s"]
+        nints = M.count_fields([it for it in items if it not in heads])
+        fields = list(_all_fields(items))
+        text = "".join(it[1] for it in items if it[0] == "text")
+        layout = True
+        if nints is None or any(it[1] is None or it[1].width is None for it in fields) or any(it[0] not in ("text", "field", "rep") for it in items):
+            layout = None
+        elif any(it[1].width != 8 for it in fields) or text != "\n" or len(heads) > 1 or (heads and items[0] is not heads[0]):
+            layout = False
+        return {"nints": nints, "a": a, "b": b, "head": bool(heads), "layout": layout, "count": (e.d.get("nfields"), e.d.get("nargs")), "shown": repr(e.d["template"])}
+    if e.kind == "call" and is_write(e) and isinstance(e.d["args"][0], S) and any(x[0] == "join" for x in e.d["args"][0].p):
+        parts = list(e.d["args"][0].p)
+        joins = [x for x in parts if x[0] == "join"]
+        if len(joins) != 1 or joins[0][1] != "":
+            return {"unknown": repr(e.d["args"][0])}
+        comp = joins[0][2]
+        it, tgt, elt = comp[2], comp[3], comp[1]
+        if it == seq:
+            a, b = Lin(), N
+        elif isinstance(it, tuple) and it[:1] == ("slice",) and M.origin(it[1]) == seq and it[4] == Lin(c=1):
+            a = lin(it[2])
+            b = N if it[3] == ("k", None) else M.mk_min([lin(it[3]), N], e.facts)
+        else:
+            return {"unknown": show(it)}
+        layout = True
+        if not (isinstance(elt, S) and len(elt.p) == 1 and elt.p[0][0] == "fv" and elt.p[0][2] == tgt):
+            layout = None
+        else:
+            sp = M.parse_spec(elt.p[0][1] or "")
+            if sp is None or sp.width is None:
+                layout = None
+            elif sp.width != 8 or sp.type not in ("d", ""):
+                layout = False
+        i = parts.index(joins[0])
+        before, after = S(parts[:i]), S(parts[i + 1:])
+        head = False
+        if before.p:
+            w = E.width(before)
+            blank = all((x[0] == "lit" and not x[1].strip(" ")) or (x[0] == "fv" and isinstance(x[2], S) and not x[2].p) for x in before.p)
+            head = True
+            if w is None or not blank:
+                layout = None if layout is not False else False
+            elif w != Lin(c=8):
+                layout = False
+        if after.text() != "\n":
+            layout = False if after.text() is not None else None
+        return {"nints": b - a, "a": a, "b": b, "head": head, "layout": layout, "count": None, "shown": repr(e.d["args"][0])}
+    return None
 
 
 def _nasints(ctx):
@@ -1493,22 +1546,24 @@ def _nasints(ctx):
     fn = ctx.src.func(BULK, q)
     E = engine(ctx, BULK, q)
     ints = ("sym", "ints")
-    fm = [e for e in E.events("format") if e.d.get("items") is not None]
-    by_node = {}
-    for e in fm:
-        by_node.setdefault(id(e.node), []).append(e)
-    if len(by_node) < 1:
-        raise AnchorError("wtnasints: formatted writes")
+    N = lin(("len", ints))
+    recs = {}
+    for e in E.events(("format", "call")):
+        r = _int_records(E, e, ints, N)
+        if r is not None:
+            recs.setdefault(id(e.node), []).append((e, r))
+    if not recs:
+        raise AnchorError("wtnasints: writes of the integers")
     labels = {}
-    for evs in by_node.values():
-        e = evs[0]
-        star = [a for a in e.d["args"] if isinstance(a, tuple) and a[:1] == ("star",)]
-        sl = star[0][1] if star else None
-        if isinstance(sl, tuple) and sl[:1] == ("slice",) and sl[2] == Lin() and not e.loops:
+    for evs in recs.values():
+        e, r = evs[0]
+        if "unknown" in r:
+            label = "integer"
+        elif r["a"] == Lin() and not e.loops and r["b"] != N:
             label = "first-line"
         elif e.loops:
             label = "full continuation line"
-        elif isinstance(sl, tuple) and sl[:1] == ("slice",):
+        elif r["a"] != Lin():
             label = "last-line"
         else:
             label = "single-line"
@@ -1518,38 +1573,48 @@ def _nasints(ctx):
             label = f"{base} #{k}"
             k += 1
         labels[id(e.node)] = label
-    for nid, evs in by_node.items():
-        worst = None
-        for e in evs:
-            nf, na = e.d.get("nfields"), e.d.get("nargs")
-            if nf is None or na is None or not M.proves_zero(nf - na, e.facts):
-                worst = e
-                break
-        _count_check(ctx, q, worst or evs[0], labels[nid])
+    # every template has as many fields as it is given values
+    for nid, evs in recs.items():
+        inst = f"{q}: the {labels[nid]} template has as many fields as it is given values"
+        v = V().at(evs[0][0].node)
+        for e, r in evs:
+            if "unknown" in r:
+                v.unknown({"values written": r["unknown"]})
+            elif r["count"] is None:
+                continue                    # one field per element by construction (a comprehension over the slice)
+            elif r["count"][0] is None or r["count"][1] is None:
+                v.unknown("field / value count not derived")
+            else:
+                rr, w = _differs(r["count"][0] - r["count"][1], e.facts, limit=36)
+                if rr is True:
+                    v.bad({"fields": show(r["count"][0]), "values": show(r["count"][1]), "differ for": w,
+                           "consequence": "str.format silently drops surplus values (or raises IndexError when there are too few)"})
+                elif rr is None:
+                    v.unknown({"fields": show(r["count"][0]), "values": show(r["count"][1])})
+        v.report(ctx, inst, fn)
     # line capacity: a continuation line holds the blank head + at most 8 integers, the first line at most 10 - start
     start = lin(("sym", "start"))
     v = V()
-    for e in fm:
-        items = e.d["items"]
-        nints = M.count_fields([it for it in items if not (it[0] == "field" and it[1] is not None and it[1].type == "s")])
-        heads = [it for it in items if it[0] == "field" and it[1] is not None and it[1].type == "s"]
-        fields = list(_all_fields(items))
-        text = "".join(it[1] for it in items if it[0] == "text")
-        cap = Lin(c=8) if heads else (Lin(c=10) - start)
-        if nints is None or any(it[1] is None or it[1].width is None for it in fields) or any(it[0] not in ("text", "field", "rep") for it in items):
-            v.unknown({"template": repr(e.d["template"])}, e.node)
-            continue
-        if any(it[1].width != 8 for it in fields) or text != "\n" or len(heads) > 1 or (heads and items[0] is not heads[0]):
-            v.bad({"template": repr(e.d["template"])}, e.node)
-            continue
-        if not M.proves_ge0(cap - nints, e.facts):
-            d_ = cap - nints
-            syms = M.free_symbols(d_)
-            w = M.find_witness(syms, e.facts, lambda a_, d_=d_: (M.lin_eval(d_, a_) is not None and M.lin_eval(d_, a_) < 0), limit=30) if len(syms) <= 3 else None
-            if w is not None:
-                v.bad({"integers on the line": show(nints), "capacity": show(cap), "exceeded for": {show(k_): x for k_, x in w.items()}}, e.node)
-            else:
-                v.unknown({"integers on the line": show(nints), "capacity": show(cap)}, e.node)
+    for evs in recs.values():
+        for e, r in evs:
+            if "unknown" in r:
+                v.unknown({"values written": r["unknown"]}, e.node)
+                continue
+            if r["layout"] is None:
+                v.unknown({"line": r["shown"]}, e.node)
+                continue
+            if r["layout"] is False:
+                v.bad({"line": r["shown"]}, e.node)
+                continue
+            cap = Lin(c=8) if r["head"] else (Lin(c=10) - start)
+            d_ = cap - r["nints"]
+            if not M.proves_ge0(d_, e.facts):
+                syms = M.free_symbols(d_)
+                w = M.find_witness(syms, e.facts, lambda a_, d_=d_: (M.lin_eval(d_, a_) is not None and M.lin_eval(d_, a_) < 0), limit=30) if len(syms) <= 3 else None
+                if w is not None:
+                    v.bad({"integers on the line": show(r["nints"]), "capacity": show(cap), "exceeded for": {show(k_): x for k_, x in w.items()}}, e.node)
+                else:
+                    v.unknown({"integers on the line": show(r["nints"]), "capacity": show(cap)}, e.node)
     v.report(ctx, "wtnasints: every line is made of 8-column fields, the first holds at most 10 - start integers, a continuation line a blank head + at most 8", fn)
     # tiling: the slices written follow each other and start at 0
     _tiling(ctx, E, q, ints, fn)
@@ -1567,6 +1632,8 @@ def _differs(d, facts, limit=24):
     """is the linear form d non-zero for some values the facts allow?  True (with witness) / False (proved zero) / None"""
     if M.proves_zero(d, facts):
         return False, None
+    if lin(d).is_const():
+        return True, {"always": f"the two differ by {lin(d).c}"}
     syms = M.free_symbols(d)
     w = M.find_witness(syms, facts, lambda a_: M.lin_eval(d, a_) not in (None, 0), limit=limit) if len(syms) <= 3 else None
     if w is not None:
@@ -1622,19 +1689,14 @@ def _tiling(ctx, E, q, seq, fn):
                     v.unknown({"loop counter after one pass": show(e.d["env"][nm]), "written up to": show(wp)}, e.node)
             elif e.kind == "loopexit" and e.d["loop"] in loop_entry:
                 wp = lin(e.d["env"][loop_entry[e.d["loop"]]])
-            elif e.kind == "format" and e.d.get("items") is not None:
-                star = [a for a in e.d["args"] if isinstance(a, tuple) and a[:1] == ("star",)]
-                if not star:
+            elif e.kind in ("format", "call"):
+                rec = _int_records(E, e, seq, N)
+                if rec is None:
                     continue
-                x = star[0][1]
-                if x == seq:
-                    a, b = Lin(), N
-                elif isinstance(x, tuple) and x[:1] == ("slice",) and M.origin(x[1]) == seq and x[4] == Lin(c=1):
-                    a = lin(x[2])
-                    b = N if x[3] == ("k", None) else M.mk_min([lin(x[3]), N], e.facts)
-                else:
-                    v.unknown({"values written": show(x)}, e.node)
+                if "unknown" in rec:
+                    v.unknown({"values written": rec["unknown"]}, e.node)
                     continue
+                a, b = rec["a"], rec["b"]
                 r, w = _differs(a - wp, e.facts)
                 if r is True:
                     v.bad({"slice starts at": show(a), "written up to": show(wp), "differ for": w}, e.node)
